@@ -68,20 +68,20 @@ type gateReq struct {
 }
 
 type meshSched struct {
-	mu       sync.Mutex
-	cond     *sync.Cond
-	waiting  map[threadKey]*gateReq
-	serial   int
-	open     bool // free mode: gates do not block
-	delayRng *rand.Rand
-	maxDelay int // microseconds, free mode
-	holdPoint string        // free mode: the first thread arriving at this gate is held for holdDur
+	mu        sync.Mutex
+	cond      *sync.Cond
+	waiting   map[threadKey]*gateReq
+	serial    int
+	open      bool // free mode: gates do not block
+	delayRng  *rand.Rand
+	maxDelay  int    // microseconds, free mode
+	holdPoint string // free mode: the first thread arriving at this gate is held for holdDur
 	holdDur   time.Duration
 	held      bool
-	finished map[int]error
-	done     map[int]bool
-	events   []meshEv
-	record   bool
+	finished  map[int]error
+	done      map[int]bool
+	events    []meshEv
+	record    bool
 }
 
 func newMeshSched() *meshSched {
@@ -600,11 +600,14 @@ func c19Free(idx, n, c int, rng *rand.Rand, hold string, holdDur time.Duration) 
 	}
 	// accept goroutines may still be adding the last peers: the property is about the state at return,
 	// which startConnect sampled; the final check runs after a grace period
-	time.Sleep(20 * time.Millisecond)
+	time.Sleep(20*time.Millisecond + c19Idle)
 	r.finalCheck()
 	res.Nontrivial = n >= 3
 	return res, nil
 }
+
+// c19Idle: how long the formed mesh stays unused before the token exchange of the final check
+var c19Idle time.Duration
 
 func c19Main(args []string) error {
 	if len(args) < 2 {
@@ -706,6 +709,22 @@ func c19Main(args []string) error {
 			r.Class = "slow:" + p
 			out.put(r)
 		}
+		// a party that starts several seconds late, and a mesh that is first used several seconds after it formed:
+		// neither the start timing nor idleness may cost a connection
+		r, err := c19Free(len(points), 3, 2, rng, "Hello", 5500*time.Millisecond)
+		if err != nil {
+			return err
+		}
+		r.Class = "slow:late-starter"
+		out.put(r)
+		c19Idle = 5500 * time.Millisecond
+		r, err = c19Free(len(points)+1, 2+rng.Intn(2), 2, rng, "", 0)
+		c19Idle = 0
+		if err != nil {
+			return err
+		}
+		r.Class = "slow:idle-then-data"
+		out.put(r)
 		return nil
 	case "free":
 		out, err := newND(args[1])
